@@ -70,7 +70,31 @@ def strategy(tier):
             "coupling_seed": st.integers(0, 2**31 - 1),
         })
 
-    return rs.flatmap(with_config)
+    # targeted family: two topologies without the F4 pattern ((01)2 + (02)1), one massive spin-1
+    # final-state particle, axis-angle alignment — the configuration in which the Wigner rotations
+    # of different chains must be mutually consistent (rare in the generic family)
+    def targeted(args):
+        spin1_at, k_init, k_res, p_res, rot, es, cs, bw = args
+        finals = [{"s2": 2 if i == spin1_at else 0, "P": 1, "m": [0.135, 0.494, 0.938][i], "latex": 0} for i in range(3)]
+        res = {"k": k_res, "P": p_res, "eps": 0.1, "width": 0.1}
+        r = {
+            "formalism": "helicity", "n": 3, "mu": 0.3, "final": finals, "ident": [],
+            "initial": {"k": k_init, "P": 1, "eps": 0.3, "width": 0.0},
+            "topos": [
+                {"idx": 0, "perm": [2, 0, 1], "res": [dict(res)], "pc": [False, False]},  # (01)2
+                {"idx": 0, "perm": [1, 0, 2], "res": [dict(res)], "pc": [False, False]},  # (02)1
+            ],
+            "hel_init": 0, "hel_final": [0, 0, 0], "max_transitions": 96,
+        }
+        return {"reaction": r, "spin1_budget": 1, "alignment": "axisangle", "bw": bw, "rotation": rot,
+                "event_seed": es, "coupling_seed": cs}
+
+    target = st.tuples(
+        st.integers(0, 2), st.integers(0, 1), st.integers(1, 2), st.sampled_from([1, -1]), _rotation(),
+        st.integers(0, 2**31 - 1), st.integers(0, 2**31 - 1), st.booleans(),
+    ).map(targeted)
+    generic = rs.flatmap(with_config)
+    return st.one_of(generic, generic, generic, target)
 
 
 def rotation_matrix(spec):
